@@ -1,19 +1,27 @@
 (* C19 — model of the file protocol of programs/fileio.c + the relevant part of
    programs/zstdcli.c (no proofs here).
 
-   fio_ops i s vs : the sequence of file-system operations of one `zstd` run for
-   invocation i, started in file system s, when the codec (libzstd) behaves on each
-   source as the verdict vs says.
+   fio_ops i ls s vs : the sequence of file-system operations of one `zstd` run for
+   invocation i, started in file system s (ls = what readdir returns, for -r), when the
+   environment (libzstd on each source, and the system calls on each file) behaves as vs says.
 
    Code anchors (programs/):
-     zstdcli.c  main: test mode => outFileName=nulmark, removeSrcFile=0;
-                hasStdout => removeSrcFile=0; one file + outFileName => FIO_*Filename,
-                otherwise FIO_*MultipleFilenames
-     fileio.c   FIO_compressFilename_srcFile / _dstFile, FIO_decompressSrcFile / DstFile,
-                FIO_openDstFile, FIO_removeFile, FIO_multiFilesConcatWarning,
+     zstdcli.c  main: symbolic links among the file arguments are dropped unless -f (all dropped => exit 1);
+                -r expands directories (UTIL_expandFNT / UTIL_prepareFileList; nothing left => exit 0);
+                no file => stdin; one stdin source and no output given => stdout;
+                -D together with --patch-from, --patch-from with several files => exit 1;
+                test mode => outFileName=nulmark, removeSrcFile=0; hasStdout => removeSrcFile=0;
+                --rm / --keep: the last one on the command line wins;
+                one file + outFileName => FIO_*Filename, otherwise FIO_*MultipleFilenames
+     fileio.c   FIO_createCResources / FIO_createDResources (dictionary loaded before anything else:
+                FIO_getDictFileStat EXM_THROW(31/32), fopen EXM_THROW(33)),
+                FIO_compressFilename_srcFile / _dstFile, FIO_decompressSrcFile / DstFile,
+                FIO_openSrcFile, FIO_openDstFile, FIO_removeFile, FIO_multiFilesConcatWarning,
                 FIO_compressMultipleFilenames, FIO_decompressMultipleFilenames,
-                FIO_determineCompressedName, FIO_determineDstName, FIO_decompressFrames,
-                addHandler / clearHandler / INThandler *)
+                FIO_determineCompressedName, FIO_determineDstName, FIO_createFilename_fromOutDir,
+                FIO_decompressFrames, addHandler / clearHandler / INThandler,
+                EXM_THROW (fileio_common.h) = FIO_removeArtefact(); exit(n)
+     util.c     UTIL_isCompressedFile (--exclude-compressed), UTIL_isSameFile, UTIL_isLink *)
 From Coq Require Import NArith List Bool.
 From ZV.Cli Require Import FsModel.
 Import ListNotations.
@@ -23,20 +31,25 @@ Inductive cmode := Compress | Decompress | Test.
 Inductive outsel :=
 | OutDefault                 (* one destination per source, derived from its name *)
 | OutStdout                  (* -c *)
-| OutFile (p : path).        (* -o p *)
+| OutFile (p : path)         (* -o p *)
+| OutDir (d : path).         (* --output-dir-flat d (-O d): one destination per source, inside d *)
 
 Record inv := mkInv {
   i_mode : cmode;
-  i_srcs : list path;
+  i_srcs : list path;        (* the file arguments; "-" is given as stdinmark *)
   i_out : outsel;
   i_force : bool;            (* -f *)
-  i_rm : bool;               (* --rm *)
-  i_confirm : bool           (* interactive run (display level > 1) whose user answers y to every prompt *)
+  i_rmk : list bool;         (* the --rm (true) and -k / --keep (false) flags, in command-line order *)
+  i_confirm : bool;          (* interactive run (display level > 1) whose user answers y to every prompt *)
+  i_rec : bool;              (* -r *)
+  i_excl : bool;             (* --exclude-compressed *)
+  i_dict : option path;      (* -D file *)
+  i_patch : option path      (* --patch-from=file *)
 }.
 
-(* ---- what the codec does on one source (parameter of the model) ---- *)
+(* ---- how the environment behaves on one file (parameter of the model) ---- *)
 
-Inductive outcome := Ret0 | Ret1 | Throw (n : N).     (* Throw n = EXM_THROW(n): exit(n) on the spot *)
+Inductive outcome := Ret0 | Ret1 | Throw (n : N).     (* Throw n = EXM_THROW(n): clean-up of the artefact, exit(n) *)
 
 Inductive fitem :=
 | FrOk (chunks : list data)      (* a frame that decodes; its output in write-job chunks *)
@@ -47,7 +60,15 @@ Record verdict := mkVerdict {
   v_chunks : list data;      (* compression: output chunks *)
   v_out : outcome;           (* compression: result of FIO_compressFilename_internal *)
   v_items : list fitem;      (* decompression: the frames of the source *)
-  v_close_ok : bool          (* fclose(dst) succeeds *)
+  (* I/O faults: which library / system calls made on behalf of this file fail *)
+  v_wfail : option nat;      (* Some n: fwrite / fseek of the write pool fails after n complete write jobs: EXM_THROW(70/92/93) *)
+  v_open_ok : bool;          (* fopen(file, "rb") succeeds (source, dictionary) *)
+  v_ovw_unlink_ok : bool;    (* remove(dst) before the destination is re-created succeeds (the code ignores the result) *)
+  v_creat_ok : bool;         (* open(dst, O_WRONLY|O_CREAT|O_TRUNC) succeeds *)
+  v_close_ok : bool;         (* fclose(dst) succeeds *)
+  v_art_unlink_ok : bool;    (* remove(dst) of the artefact succeeds *)
+  v_close_src_ok : bool;     (* fclose(src) succeeds *)
+  v_rm_ok : bool             (* remove(src) succeeds *)
 }.
 
 (* FIO_decompressFrames *)
@@ -61,26 +82,49 @@ Fixpoint frames_loop (pass : bool) (items : list fitem) (first : bool) : list da
 
 Inductive dsel :=
 | DTest                      (* test mode: nothing is opened or written *)
-| DStdout
-| DShared (p : path)         (* several sources into one already opened destination *)
+| DStdout (close_here : bool)  (* stdout; close_here: fclose(stdout) is part of this source's processing *)
+| DShared (p : path)         (* several sources into one already opened destination (p = the key it was opened on) *)
 | DOwn (p : path).           (* destination opened and closed for this source *)
 
-Definition is_stdout (d : dsel) : bool := match d with DStdout => true | _ => false end.
+Definition is_stdout (d : dsel) : bool := match d with DStdout _ => true | _ => false end.
+
+(* the write pool stops at the first failing fwrite *)
+Definition cut_w (w : option nat) (r : list data * outcome) : list data * outcome :=
+  match w with
+  | Some n => if Nat.ltb n (length (fst r)) then (firstn n (fst r), Throw 70) else r
+  | None => r
+  end.
 
 Definition codec (i : inv) (d : dsel) (v : verdict) : list data * outcome :=
-  match i_mode i with
-  | Compress => (v_chunks v, v_out v)
-  | _ => frames_loop (i_force i && is_stdout d) (v_items v) true
+  let raw := match i_mode i with
+             | Compress => (v_chunks v, v_out v)
+             | _ => frames_loop (i_force i && is_stdout d) (v_items v) true
+             end in
+  match d with
+  | DTest => raw                   (* test mode: AIO_fwriteSparse returns before writing *)
+  | _ => cut_w (v_wfail v) raw
   end.
 
 Definition is_ret0 (o : outcome) : bool := match o with Ret0 => true | _ => false end.
 
-(* ---- destination names ---- *)
+(* ---- names ---- *)
 Definition dot : N := 46.
+Definition slash : N := 47.
+Definition stdinmark : path := [47; 42; 115; 116; 100; 105; 110; 42; 92].          (* "/*stdin*\" *)
+Definition stdoutmark : path := [47; 42; 115; 116; 100; 111; 117; 116; 42; 92].    (* "/*stdout*\" *)
+Definition is_stdin (p : path) : bool := path_eqb p stdinmark.
+
 Definition sfx_zst : path := [46; 122; 115; 116].          (* ".zst" *)
 Definition sfx_tzst : path := [46; 116; 122; 115; 116].    (* ".tzst" *)
 Definition sfx_zstd : path := [46; 122; 115; 116; 100].    (* ".zstd" *)
 Definition sfx_tar : path := [46; 116; 97; 114].           (* ".tar" *)
+Definition sfx_gz : path := [46; 103; 122].                (* ".gz" *)
+Definition sfx_tgz : path := [46; 116; 103; 122].          (* ".tgz" *)
+Definition sfx_lzma : path := [46; 108; 122; 109; 97].     (* ".lzma" *)
+Definition sfx_xz : path := [46; 120; 122].                (* ".xz" *)
+Definition sfx_txz : path := [46; 116; 120; 122].          (* ".txz" *)
+Definition sfx_lz4 : path := [46; 108; 122; 52].           (* ".lz4" *)
+Definition sfx_tlz4 : path := [46; 116; 108; 122; 52].     (* ".tlz4" *)
 
 (* scan the reversed name up to the last '.', returns (suffix incl. dot, reversed base) *)
 Fixpoint split_at_dot (r : list N) (acc : list N) : option (list N * list N) :=
@@ -89,30 +133,99 @@ Fixpoint split_at_dot (r : list N) (acc : list N) : option (list N * list N) :=
   | c :: tl => if c =? dot then Some (c :: acc, tl) else split_at_dot tl (c :: acc)
   end.
 
-(* FIO_determineDstName (no output directory) *)
-Definition dstname_d (src : path) : option path :=
+(* the part after the last '/' (the whole name when there is none) *)
+Fixpoint until_slash (r : path) : path :=
+  match r with
+  | [] => []
+  | c :: tl => if c =? slash then [] else c :: until_slash tl
+  end.
+Definition basename (p : path) : path := rev (until_slash (rev p)).
+
+(* the part before the last '/', None when there is none *)
+Fixpoint after_slash (r : path) : option path :=
+  match r with
+  | [] => None
+  | c :: tl => if c =? slash then Some tl else after_slash tl
+  end.
+Definition parent (p : path) : option path := option_map (@rev N) (after_slash (rev p)).
+
+(* FIO_createFilename_fromOutDir *)
+Definition in_dir (d : path) (name : path) : path :=
+  match rev d with
+  | c :: _ => if c =? slash then d ++ name else d ++ slash :: name
+  | [] => slash :: name
+  end.
+
+(* FIO_determineDstName *)
+Definition dstname_d (od : option path) (src : path) : option path :=
   match split_at_dot (rev src) [] with
   | None => None
   | Some (sfx, rbase) =>
       match rbase with
       | [] => None
-      | _ => if path_eqb sfx sfx_zst || path_eqb sfx sfx_zstd then Some (rev rbase)
-             else if path_eqb sfx sfx_tzst then Some (rev rbase ++ sfx_tar)
+      | _ => let base := match od with
+                         | None => rev rbase
+                         | Some d => in_dir d (basename (rev rbase))
+                         end in
+             if path_eqb sfx sfx_zst || path_eqb sfx sfx_zstd then Some base
+             else if path_eqb sfx sfx_tzst then Some (base ++ sfx_tar)
              else None
       end
   end.
 
 (* FIO_determineCompressedName *)
-Definition dstname_c (src : path) : option path := Some (src ++ sfx_zst).
+Definition dstname_c (od : option path) (src : path) : option path :=
+  Some (match od with None => src | Some d => in_dir d (basename src) end ++ sfx_zst).
+
+(* UTIL_isCompressedFile over the compressor extensions of compressedFileExtensions[]
+   (the media / archive extensions of that table are not modelled) *)
+Definition compressed_exts : list path :=
+  [sfx_zst; sfx_tzst; sfx_gz; sfx_tgz; sfx_lzma; sfx_xz; sfx_txz; sfx_lz4; sfx_tlz4].
+Definition is_compressed_name (src : path) : bool :=
+  match split_at_dot (rev src) [] with
+  | Some (sfx, _ :: _) => existsb (path_eqb sfx) compressed_exts
+  | _ => false
+  end.
 
 (* ---- FIO_openDstFile for a file name ---- *)
-Definition open_dst (ovw : bool) (s : fs) (src : option path) (dst : path) (m600 : bool) : list op * bool :=
-  if match src with Some sp => path_eqb sp dst | None => false end
-  then ([], false)                                  (* UTIL_isSameFile: refused *)
-  else match s dst with
-       | Reg _ => if ovw then ([OUnlinkDst dst; OCreat dst m600], true) else ([], false)
-       | Absent => ([OCreat dst m600], true)
-       | Dir => ([], false)                         (* open() fails *)
+
+(* UTIL_isSameFile: both exist and resolve to the same key *)
+Definition same_file (s : fs) (a b : path) : bool :=
+  match look s a, look s b with
+  | Absent, _ => false
+  | _, Absent => false
+  | _, _ => path_eqb (target s a) (target s b)
+  end.
+
+Definition parent_ok (s : fs) (p : path) : bool :=
+  match parent p with
+  | None => true
+  | Some [] => true
+  | Some q => is_dir (look s q)
+  end.
+
+(* open(dst, O_WRONLY|O_CREAT|O_TRUNC, mode): follows a link, fails on a directory *)
+Definition creat_ops (s : fs) (v : verdict) (dst : path) (m600 : bool) : list op * option path :=
+  if v_creat_ok v && parent_ok s dst then
+    match look s dst with
+    | Dir => ([], None)
+    | Lnk _ => ([], None)
+    | _ => ([OCreat (target s dst) m600], Some (target s dst))
+    end
+  else ([], None).
+
+(* result: the operations, and the key the data is written to when the destination could be opened *)
+Definition open_dst (ovw : bool) (s : fs) (v : verdict) (src : option path) (dst : path) (m600 : bool)
+  : list op * option path :=
+  if match src with Some sp => same_file s sp dst | None => false end
+  then ([], None)                                   (* refused *)
+  else match look s dst with
+       | Reg _ =>
+           if ovw then
+             let u := if v_ovw_unlink_ok v then [OUnlinkDst dst] else [] in
+             let '(c, t) := creat_ops (run u s) v dst m600 in (u ++ c, t)
+           else ([], None)
+       | _ => creat_ops s v dst m600
        end.
 
 Inductive fres := FOk | FFail | FThrow (n : N).
@@ -120,42 +233,99 @@ Inductive fres := FOk | FFail | FThrow (n : N).
 Definition writes (d : dsel) (chunks : list data) : list op :=
   match d with
   | DTest => []
-  | DStdout => map OStdout chunks
+  | DStdout _ => map OStdout chunks
   | DShared p => map (OWrite p) chunks
   | DOwn p => map (OWrite p) chunks
   end.
 
-Definition tail_src (rm : bool) (src : path) (ok : bool) : list op :=
-  OCloseSrc src :: (if rm && ok then [OClr; OUnlinkSrc src] else []).
-
 Definition ovw (i : inv) : bool := i_force i || i_confirm i.
+
+Definition dict_of (i : inv) : option path :=
+  match i_patch i with
+  | Some p => Some p
+  | None => i_dict i
+  end.
+
+(* the checks made on a source before anything is opened *)
+Inductive gate := GFail | GSkip | GGo.
+
+Definition src_gate (i : inv) (s : fs) (src : path) (v : verdict) : gate :=
+  if is_stdin src then GGo else
+  match i_mode i with
+  | Compress =>
+      match look s src with
+      | Dir => GFail
+      | n => if match dict_of i with Some d => same_file s src d | None => false end then GFail
+             else if i_excl i && is_compressed_name src then GSkip
+             else match n with
+                  | Reg _ => if v_open_ok v then GGo else GFail
+                  | _ => GFail
+                  end
+      end
+  | _ => match look s src with
+         | Reg _ => if v_open_ok v then GGo else GFail
+         | _ => GFail
+         end
+  end.
+
+(* closing the source and --rm *)
+Definition tail_src (i : inv) (rm : bool) (src : path) (v : verdict) (ok : bool) : list op * fres :=
+  let res := if ok then FOk else FFail in
+  let dorm := rm && ok && negb (is_stdin src) in
+  match i_mode i with
+  | Compress =>
+      if dorm then
+        if v_rm_ok v then ([OCloseSrc src; OClr; OUnlinkSrc src], FOk)
+        else ([OCloseSrc src; OClr; OExit 1], FThrow 1)
+      else ([OCloseSrc src], res)
+  | _ =>
+      if negb (v_close_src_ok v) then ([OCloseSrc src], FFail)
+      else if dorm then
+        if v_rm_ok v then ([OCloseSrc src; OClr; OUnlinkSrc src], FOk)
+        else ([OCloseSrc src; OClr], FFail)
+      else ([OCloseSrc src], res)
+  end.
+
+(* EXM_THROW: FIO_removeArtefact(); exit(n) *)
+Definition throw_ops (art : option path) (v : verdict) (n : N) : list op :=
+  match art with
+  | Some p => (if v_art_unlink_ok v then [OUnlinkDst p] else []) ++ [OExit n]
+  | None => [OExit n]
+  end.
 
 (* FIO_compressFilename_srcFile + _dstFile  /  FIO_decompressSrcFile + DstFile *)
 Definition file_ops (i : inv) (rm : bool) (s : fs) (src : path) (d : dsel) (v : verdict) : list op * fres :=
-  match s src with
-  | Absent => ([], FFail)
-  | Dir => ([], FFail)
-  | Reg _ =>
+  match src_gate i s src v with
+  | GFail => ([], FFail)
+  | GSkip => ([], FOk)
+  | GGo =>
+      let stdin := is_stdin src in
+      let rd := if stdin then [] else [OOpenRead src] in
       let '(chunks, out) := codec i d v in
       match d with
       | DOwn p =>
-          let '(oo, opened) := open_dst (ovw i) s (Some src) p true in
-          if opened then
-            let pre := OOpenRead src :: oo ++ OReg p :: map (OWrite p) chunks in
-            match out with
-            | Throw n => (pre ++ [OExit n], FThrow n)
-            | _ =>
-                let ok := is_ret0 out && v_close_ok v in
-                (pre ++ [OClr; OSetStat p; OClose p; OUtime p]
-                     ++ (if ok then [] else [OUnlinkDst p]) ++ tail_src rm src ok,
-                 if ok then FOk else FFail)
-            end
-          else (OOpenRead src :: oo ++ [OCloseSrc src], FFail)
+          let '(oo, ot) := open_dst (ovw i) s v (Some src) p (negb stdin) in
+          match ot with
+          | None => (rd ++ oo ++ [OCloseSrc src], FFail)
+          | Some t =>
+              let pre := rd ++ oo ++ OReg p :: map (OWrite t) chunks in
+              match out with
+              | Throw n => (pre ++ throw_ops (Some p) v n, FThrow n)
+              | _ =>
+                  let ok := is_ret0 out && v_close_ok v in
+                  let '(tl, r) := tail_src i rm src v ok in
+                  (pre ++ OClr :: (if stdin then [] else [OSetStat t]) ++ OClose t :: (if stdin then [] else [OUtime p])
+                       ++ (if ok then [] else if v_art_unlink_ok v then [OUnlinkDst p] else []) ++ tl, r)
+              end
+          end
       | _ =>
-          let pre := OOpenRead src :: writes d chunks in
+          let pre := rd ++ writes d chunks in
           match out with
           | Throw n => (pre ++ [OExit n], FThrow n)
-          | _ => let ok := is_ret0 out in (pre ++ tail_src rm src ok, if ok then FOk else FFail)
+          | _ =>
+              let ok := is_ret0 out && match d with DStdout true => v_close_ok v | _ => true end in
+              let '(tl, r) := tail_src i rm src v ok in
+              (pre ++ tl, r)
           end
       end
   end.
@@ -187,67 +357,156 @@ Definition exit_of (e : bool + N) : list op :=
   | inr _ => []                 (* the OExit n is already in the list *)
   end.
 
-Definition is_test (i : inv) : bool := match i_mode i with Test => true | _ => false end.
-Definition out_stdout (i : inv) : bool := match i_out i with OutStdout => true | _ => false end.
+(* ---- zstdcli.c: from the command line to the list of names ---- *)
 
-(* zstdcli.c: removeSrcFile is cleared in test mode and when the output is stdout *)
-Definition eff_rm (i : inv) : bool := i_rm i && negb (is_test i) && negb (out_stdout i).
+Definition is_nil {A} (l : list A) : bool := match l with [] => true | _ => false end.
+Definition is_some {A} (o : option A) : bool := match o with Some _ => true | None => false end.
 
-Definition dstname (i : inv) (src : path) : option path :=
-  match i_mode i with
-  | Compress => dstname_c src
-  | _ => dstname_d src
+(* UTIL_prepareFileList; ls d = the entries of directory d (as paths d/name) in readdir order *)
+Fixpoint expand_dir (fuel : nat) (ls : path -> list path) (s : fs) (follow : bool) (d : path) : list path :=
+  match fuel with
+  | O => []
+  | S f => flat_map (fun p => if negb follow && is_lnk (s p) then []
+                              else if is_dir (look s p) then expand_dir f ls s follow p
+                              else [p]) (ls d)
   end.
 
-(* which destination a source gets *)
-Definition dsel_of (i : inv) (src : path) : option dsel :=
-  match i_mode i with
-  | Test => Some DTest
-  | _ => match i_out i with
-         | OutStdout => Some DStdout
-         | OutFile p => match i_srcs i with
-                        | [_] => Some (DOwn p)
-                        | _ => Some (DShared p)
-                        end
-         | OutDefault => option_map DOwn (dstname i src)
+(* UTIL_createExpandedFNT *)
+Definition expand (ls : path -> list path) (s : fs) (follow : bool) (names : list path) : list path :=
+  flat_map (fun p => if is_dir (look s p) then expand_dir 16 ls s follow p else [p]) names.
+
+(* inl n: main returns n before any file is processed; inr names: the names handed to fileio.c *)
+Definition pre (i : inv) (ls : path -> list path) (s : fs) : N + list path :=
+  let given := i_srcs i in
+  let l1 := if i_force i then given else filter (fun p => negb (is_lnk (s p))) given in
+  if negb (is_nil given) && is_nil l1 then inl 1 else
+  let l2 := if i_rec i then expand ls s (i_force i) l1 else l1 in
+  match (if is_nil l2 then (if is_nil given then Some [stdinmark] else None) else Some l2) with
+  | None => inl 0
+  | Some l3 =>
+      if is_some (i_dict i) && is_some (i_patch i) then inl 1
+      else if is_some (i_patch i) && negb (Nat.leb (length l3) 1) then inl 1
+      else inr l3
+  end.
+
+Definition eff_srcs (i : inv) (ls : path -> list path) (s : fs) : list path :=
+  match pre i ls s with
+  | inr names => names
+  | inl _ => []
+  end.
+
+Definition is_test (i : inv) : bool := match i_mode i with Test => true | _ => false end.
+
+Definition one_name (names : list path) : bool := match names with [_] => true | _ => false end.
+
+(* outFileName after "when input is stdin, default output is stdout" *)
+Definition eff_out (i : inv) (names : list path) : outsel :=
+  match i_out i with
+  | OutStdout => OutStdout
+  | OutFile p => OutFile p
+  | o => match names with
+         | [p] => if is_stdin p then OutStdout else o
+         | _ => o
          end
   end.
 
-Definition is_concat (i : inv) : bool :=
-  negb (is_test i) &&
-  match i_out i, i_srcs i with
-  | OutFile _, [_] => false
-  | OutFile _, _ => true
-  | _, _ => false
+Definition out_stdout (i : inv) (names : list path) : bool :=
+  match eff_out i names with OutStdout => true | _ => false end.
+
+(* the last of --rm / --keep wins *)
+Definition last_flag (l : list bool) : bool := match rev l with b :: _ => b | [] => false end.
+
+(* zstdcli.c: removeSrcFile is cleared in test mode and when the output is stdout *)
+Definition eff_rm (i : inv) (names : list path) : bool :=
+  last_flag (i_rmk i) && negb (is_test i) && negb (out_stdout i names).
+
+Definition dstname (i : inv) (od : option path) (src : path) : option path :=
+  match i_mode i with
+  | Compress => dstname_c od src
+  | _ => dstname_d od src
   end.
 
-Definition fio_ops (i : inv) (s : fs) (vs : path -> verdict) : list op :=
-  if is_concat i then
-    match i_out i with
-    | OutFile p =>
-        (* FIO_multiFilesConcatWarning: --rm disabled; without -f: abort (quiet) or prompt *)
-        if ovw i then
-          let '(oo, opened) := open_dst (ovw i) s None p false in
-          if opened then
-            let '(ops, e) := loop i false (dsel_of i) vs (i_srcs i) (run oo s) false in
-            oo ++ ops ++ match e with
-                         | inl _ => OClose p :: exit_of e
-                         | inr _ => []
-                         end
-          else match i_mode i with
-               | Compress => [OExit 1]
-               | _ => [OExit 19]
-               end
-        else [OExit 1]
-    | _ => [OExit 1]
-    end
-  else
-    let '(ops, e) := loop i (eff_rm i) (dsel_of i) vs (i_srcs i) s false in
-    ops ++ exit_of e.
+(* one file and an output name: FIO_compressFilename / FIO_decompressFilename *)
+Definition single (i : inv) (names : list path) : bool :=
+  one_name names && match eff_out i names with OutStdout => true | OutFile _ => true | _ => false end.
+
+(* which destination a source gets *)
+Definition dsel_of (i : inv) (names : list path) (src : path) : option dsel :=
+  match i_mode i with
+  | Test => Some DTest
+  | _ => match eff_out i names with
+         | OutStdout => Some (DStdout (single i names))
+         | OutFile p => if single i names then Some (DOwn p) else Some (DShared p)
+         | OutDefault => if is_stdin src then Some (DStdout true) else option_map DOwn (dstname i None src)
+         | OutDir d => if is_stdin src then Some (DStdout true) else option_map DOwn (dstname i (Some d) src)
+         end
+  end.
+
+(* several sources into one output (file or stdout) *)
+Definition is_concat (i : inv) (names : list path) : bool :=
+  negb (is_test i) && negb (one_name names) &&
+  match eff_out i names with
+  | OutFile _ => true
+  | OutStdout => true
+  | _ => false
+  end.
+
+(* FIO_create*Resources: the dictionary is loaded before any source or destination is touched *)
+Definition dict_check (i : inv) (s : fs) (vs : path -> verdict) : option N :=
+  match dict_of i with
+  | None => None
+  | Some d => match look s d with
+              | Absent => Some 31
+              | Reg _ => if v_open_ok (vs d) then None else Some 33
+              | _ => Some 32
+              end
+  end.
+
+(* EXM_THROW code when the shared destination cannot be closed *)
+Definition close_code (i : inv) : N := match i_mode i with Compress => 29 | _ => 72 end.
+
+Definition fio_main (i : inv) (names : list path) (s : fs) (vs : path -> verdict) : list op :=
+  match dict_check i s vs with
+  | Some n => [OExit n]
+  | None =>
+      if is_concat i names then
+        match eff_out i names with
+        | OutFile p =>
+            (* FIO_multiFilesConcatWarning: --rm disabled; without -f: abort (quiet) or prompt *)
+            if ovw i then
+              let '(oo, ot) := open_dst true s (vs p) None p false in
+              match ot with
+              | Some t =>
+                  let '(ops, e) := loop i false (fun _ => Some (DShared t)) vs names (run oo s) false in
+                  oo ++ ops ++ match e with
+                               | inl _ => OClose t :: (if v_close_ok (vs p) then exit_of e else [OExit (close_code i)])
+                               | inr _ => []
+                               end
+              | None => oo ++ [OExit (match i_mode i with Compress => 1 | _ => 19 end)]
+              end
+            else [OExit 1]
+        | _ =>
+            (* stdout: no prompt; fclose(stdout) at the end *)
+            let '(ops, e) := loop i false (dsel_of i names) vs names s false in
+            ops ++ match e with
+                   | inl _ => if v_close_ok (vs stdoutmark) then exit_of e else [OExit (close_code i)]
+                   | inr _ => []
+                   end
+        end
+      else
+        let '(ops, e) := loop i (eff_rm i names) (dsel_of i names) vs names s false in
+        ops ++ exit_of e
+  end.
+
+Definition fio_ops (i : inv) (ls : path -> list path) (s : fs) (vs : path -> verdict) : list op :=
+  match pre i ls s with
+  | inl n => [OExit n]
+  | inr names => fio_main i names s vs
+  end.
 
 (* destination path standing for a source, if any *)
-Definition dst_of (i : inv) (src : path) : option path :=
-  match dsel_of i src with
+Definition dst_of (i : inv) (names : list path) (src : path) : option path :=
+  match dsel_of i names src with
   | Some (DOwn p) => Some p
   | _ => None
   end.
